@@ -81,11 +81,38 @@ impl<'t, 'a> FnGen<'t, 'a> {
         if self.t.chance(2, 3) {
             b.push(self.mark("f"));
         }
+        if self.t.chance(1, 8) {
+            // a pronoun as the very first thing: whatever the caller named last (typically in the argument list) is still
+            // the referent when the body starts; a runtime error when the caller named nothing since a block or call ended
+            b.push(say(bin(BinOp::Plus, strlit("entry:"), it())));
+        }
         if self.t.chance(1, 3) {
             // pronoun at function entry is whatever the caller's arguments named last: only print a parameter first
             b.push(say(var(&plast)));
         }
-        match self.t.weighted(&[18, 22, 16, 14, 12, 10, 8]) {
+        match self.t.weighted(&[18, 22, 16, 14, 12, 10, 8, 9]) {
+            7 => {
+                // a loop whose passes end in different ways (fall through, `continue` in either spelling, from inside an
+                // if): a fresh local per pass, a parameter read on the way, the parameter returned afterwards
+                let i = self.fresh();
+                let k = 2 + self.t.pick(3);
+                b.push(put(num(0.0), &i));
+                let mut lb = vec![Stmt::Inc { dest: idn(&i), amount: 1 }];
+                lb.extend(self.idiom(var(&i)));
+                let skip = 1 + self.t.pick(k);
+                lb.push(Stmt::If { cond: bin(BinOp::Eq, var(&i), num(skip as f64)), then: vec![self.mark("c"), Stmt::Continue], els: None });
+                if self.t.chance(1, 2) {
+                    lb.push(Stmt::If { cond: bin(BinOp::Greater, var(&i), num(skip as f64)), then: vec![Stmt::Continue], els: Some(vec![self.mark("n")]) });
+                }
+                lb.push(say(bin(BinOp::Plus, strlit("p:"), var(&p0))));
+                b.push(Stmt::While { cond: bin(BinOp::Less, var(&i), num(k as f64)), body: lb });
+                let loc = self.fresh();
+                b.push(put(var(&plast), &loc));
+                b.push(say(var(&loc)));
+                if self.t.chance(2, 3) {
+                    b.push(Stmt::Return { value: bin(BinOp::Plus, var(&p0), var(&i)) });
+                }
+            }
             0 => {
                 // leaf
                 if self.t.chance(1, 2) {
